@@ -352,7 +352,7 @@ func c03Check(x *vcRun, s *vcState, hist []vcEv) []hbfs.Fail {
 }
 
 func TestVerif_C03(t *testing.T) {
-	vcMain(t, &vcProp{ID: "C03", Check: c03Check, Universes: []string{"pol", "set"}},
+	vcMain(t, &vcProp{ID: "C03", Check: c03Check, Universes: []string{"pol", "set"}, QuickBatchBases: map[string][]string{"pol": {"empty", "full"}}},
 		"states = (datastore content, in-sync flag, shadow dataplane content, EventSequencer pending-object digest) reached by histories of "+
 			"set(key,variant)/del(key)/flush/insync over universe pol (2 tiers with orders 10/20/30/unset incl. an order tie, 2 policies with orders 1/2/unset incl. a tie, "+
 			"types ingress/egress/both/none, selectors on own, inherited and overridden labels, tier moves, a policy variant that fails validation; WEP with two label/profile variants, HEP, "+
